@@ -322,7 +322,7 @@ def run_C16(ctx):
 
 core.register("C11", "Props.C11", "theories/Props/C11.vo",
               ["C11_idle_disk_is_journal", "C11_invariant", "C11_structure", "C11_write_appends",
-               "C11_rotation", "C11_on_disk_size", "C11_name_roundtrip", "C11_name_order"])
+               "C11_rotation", "C11_on_disk_size", "C11_name_roundtrip", "C11_name_order", "C11_dump_after_flush_idle", "C11_dump_is_journal_refuted", "C11_dump_file_encs"])
 
 
 def parse_stat_chunks(f):
@@ -471,6 +471,30 @@ def run_C11(ctx):
             if bad <= 3:
                 ctx.fail("oracle", "C11 oracle: " + why, dict(kind="seq", case=c, detail=why))
     ctx.k_checks["oracle-journal-layout"] = (bad == 0, len(cases))
+    # the standalone Dump on the flushed, idle directory lists what RaftLog::dump() listed
+    # (theorem C11_dump_after_flush_idle), without an error item
+    dcases, dwant = [], []
+    for c, a in zip(cases, impl):
+        f = fields(a)
+        if len(f) >= 2 and f[-1].startswith("disk ") and f[-2].startswith("dump"):
+            dcases.append("DUMPDIR | " + f[-1][5:].replace(",", " "))
+            dwant.append(f[-2])
+    if dcases:
+        di = C.run_impl(dcases, ctx.wd, "dumpdir")
+        dm = C.run_model(dcases, ctx.wd, "dumpdir")
+        core.compare(ctx, "dump-of-clean-directory", dcases, di, dm)
+        badd = 0
+        for c, a, w in zip(dcases, di, dwant):
+            why = None
+            if ":err:" in a or not a.startswith("dump"):
+                why = "the standalone Dump reports an error on a flushed, idle directory: " + a[:300]
+            elif a.split() != w.split():
+                why = "the standalone Dump and RaftLog::dump() disagree on a flushed, idle directory"
+            if why:
+                badd += 1
+                if badd <= 3:
+                    ctx.fail("oracle", "C11 oracle: " + why, dict(kind="image", case=c[:6000], observed=a[:1500], expected=w[:1500]))
+        ctx.k_checks["oracle-dump-lists-the-journal"] = (badd == 0, len(dcases))
     # file-name codec: rendering of offsets and parsing of names (through load_chunk_ids)
     rnd = ctx.rnd
     nums = gen.BOUNDARY_INTS + [rnd.getrandbits(rnd.choice([8, 20, 40, 63, 64])) for _ in range(ctx.scale(2000, 20000))]
